@@ -54,7 +54,11 @@ def _case(draw):
     # the group pair is never zero in any master (jitter is at most 18), so every master has a GPOS table to merge when variableFeatures=False
     kerning = [["public.kern1.g", "public.kern2.g", draw(st.one_of(st.integers(25, 90), st.integers(-90, -25)))]]
     side = draw(st.sampled_from(["glyph-group", "group-glyph"]))
-    if draw(st.booleans()):
+    zero_exc = draw(st.integers(0, 4)) == 0
+    if zero_exc:
+        # a one-sided exception that is 0 in every master over the non-zero class pair (checked with variable features)
+        kerning.append([lat[0], "public.kern2.g", 0] if side == "glyph-group" else ["public.kern1.g", lat[-1], 0])
+    elif draw(st.booleans()):
         kerning.append([lat[0], "public.kern2.g", draw(val)] if side == "glyph-group" else ["public.kern1.g", lat[-1], draw(val)])
     if draw(st.booleans()):
         kerning.append([lat[0], lat[-1], draw(val)])
@@ -82,15 +86,24 @@ def _case(draw):
     for i in range(1, len(masters)):
         if draw(st.booleans()):
             drop[str(i)] = draw(st.lists(st.integers(1, len(kerning) - 1), min_size=1, max_size=2, unique=True)) if len(kerning) > 1 else []
+    drop = {k: [j for j in v if not (zero_exc and j == 1)] for k, v in drop.items()}
     drop = {k: v for k, v in drop.items() if v}
-    if len(masters) >= 2 and F.chance(draw, 1, 5):
+    if len(masters) >= 2 and not zero_exc and F.chance(draw, 1, 5):
         # one non-default master without any kerning: every pair is an implicit 0 there
         drop[str(draw(st.integers(1, len(masters) - 1)))] = list(range(len(kerning)))
     if drop:
         fam["drop_kerning"] = drop
     if shape in ("two", "three") and draw(st.sampled_from([True, False, False])):
         fam["sparse"] = {"k": 5, "loc": {"Weight": draw(st.sampled_from([250, 750]))}, "names": [draw(st.sampled_from(simple or lat))]}
-    case = {"fam": fam, "module": draw(st.sampled_from(["ufoLib2", "defcon"])), "flavour": draw(st.sampled_from(["ttf", "ttf", "cff2"])), "varfea": draw(st.booleans()), "shape": shape}
+    case = {"fam": fam, "module": draw(st.sampled_from(["ufoLib2", "defcon"])), "flavour": draw(st.sampled_from(["ttf", "ttf", "cff2"])), "varfea": draw(st.booleans()) or zero_exc, "shape": shape}
+    if zero_exc:
+        fam["tweaks"].append({"kind": "const-kerning", "indices": [1], "master": -1})
+        case["constant_zero_exception"] = True
+    if case["varfea"] and len(lat) >= 4 and draw(st.sampled_from([True, False, False])):
+        # kerning groups that only one non-default master defines, with a pair between them
+        fam["tweaks"].append({"kind": "extra-groups", "master": draw(st.integers(1, len(masters) - 1)), "groups": {"public.kern1.x": [lat[2]], "public.kern2.x": [lat[0]]},
+                              "kerning": [["public.kern1.x", "public.kern2.x", draw(st.sampled_from([-70, 45]))]]})
+        case["groups_in_one_master_only"] = True
     if case["varfea"] and draw(st.sampled_from([True, False, False])):
         # variable features only (the merged path needs the class pair in every master): the group-group pair is absent from one non-default master
         i = str(draw(st.integers(1, len(masters) - 1)))
@@ -282,6 +295,10 @@ def run_case(case, ctx):
         ctx.label("master-without-any-kerning")
     if case.get("group_pair_dropped"):
         ctx.label("group-pair-missing-in-a-non-default-master")
+    if case.get("constant_zero_exception"):
+        ctx.label("constant-zero-exception-over-class-pair")
+    if case.get("groups_in_one_master_only"):
+        ctx.label("kerning-groups-in-one-master-only")
     if fam.get("drop_kerning"):
         ctx.label("kerning-pair-missing-in-a-master")
     if fam["tweaks"]:
